@@ -8,6 +8,7 @@ import (
 	"bufio"
 	"context"
 	"encoding/json"
+	"errors"
 	"fmt"
 	"os"
 	"reflect"
@@ -52,11 +53,19 @@ func newEnv() *env.Env {
 	e.Define("vns", []int64(nil))          // nil values of concrete types
 	e.Define("vnm", map[string]int64(nil))
 	e.Define("vnp", (*ST)(nil))
+	e.Define("vdur", time.Duration(5)) // values with methods: a fmt.Stringer, an error
+	e.Define("verr", errors.New("boom"))
+	e.Define("id2", func(x interface{}) (interface{}, error) { return x, nil })
+	e.Define("g2", func(a, b interface{}) []interface{} { return []interface{}{a, b} })
+	e.Define("gl", func(xs ...interface{}) []interface{} { return append([]interface{}{}, xs...) })
+	e.Define("gs", func(x fmt.Stringer) string { return "stringer:" + x.String() })
+	e.Define("ge", func(x error) string { return "error:" + x.Error() })
+	e.Define("gsv", func(n int64, xs ...fmt.Stringer) string { return fmt.Sprint(n, len(xs), xs[0].String()) })
 	e.Define("id", func(x interface{}) interface{} { return x })
 	e.Define("g1", func(a interface{}) interface{} { return fmt.Sprintf("%T", a) })
 	e.Define("gi", func(a int64) int64 { return a + 100 })
 	e.Define("gv", func(xs ...interface{}) int64 { return int64(len(xs)) })
-	_, err := vm.Execute(e, nil, "vfn = func(a) { return a + 1 }\nf1 = func(a) { return a }\nf2 = func(a, b) { return [a, b] }\nfv = func(a...) { return len(a) }\nmod1 = nil\nmodule mo { x = 1 }\nvmo = mo")
+	_, err := vm.Execute(e, nil, "vfn = func(a) { return a + 1 }\nf1 = func(a) { return a }\nf2 = func(a, b) { return [a, b] }\nfv = func(a...) { return len(a) }\nf5 = func(a, b, c, d, e) { return [a, b, e] }\nfl = func(a...) { return a }\nmod1 = nil\nmodule mo { x = 1 }\nvmo = mo")
 	if err != nil {
 		panic(err)
 	}
